@@ -105,6 +105,28 @@ func c09Monitor(m *vk.Meta, in mgrIn, out mgrOut) {
 				}
 			}
 		}
+		// "... while repairs and planned switchovers continue": under light maintenance a manager iteration that holds the
+		// lock, sees a healthy reachable master and has nothing but a (suppressed) failover request before it starts the
+		// stopped replication of a reachable HA replica of the master
+		if light && !mb.ShouldLeave && st.State == stateManager && st.LockHeld && st.Connected && !st.Restarted && st.Panic == "" &&
+			!(k == in.FaultAt && (in.Fault != nil || in.DcsFault != nil || in.LockLostAt >= 0 || in.AbortAtStmt > 0)) {
+			sw := mgrSwitchIn(st.Tree, pathCurrentSwitch)
+			master := mgrMasterIn(st.Tree)
+			mn, mok := st.WorldBefore[master]
+			mh := st.Health[master]
+			if (sw == nil || sw.MasterTransition == FailoverTransition) && mok && mn.Up && mn.Chan == nil && !st.CutNow[master] && mh != nil && mh.PingOk && !mh.IsFileSystemReadonly && len(st.CutNow) == 0 {
+				for i, c := range in.Nodes {
+					h := fmt.Sprintf("h%d", i+1)
+					b, a := st.WorldBefore[h], st.WorldAfter[h]
+					if h == master || c.Cascade || !b.Up || !a.Up || b.Chan == nil || a.Chan == nil || b.Chan.Source != master {
+						continue
+					}
+					if !b.Chan.IO && !b.Chan.SQL && b.Chan.IOErrno == 0 && b.Chan.SQLErrno == 0 && !(a.Chan.IO && a.Chan.SQL) {
+						viol("light maintenance only suppresses failover while repairs continue", fmt.Sprintf("%s: replication was stopped before the iteration and still is (pending request: %v)", h, sw != nil), nil)
+					}
+				}
+			}
+		}
 		// leaving
 		left := false
 		for _, e := range st.Trans {
@@ -209,6 +231,17 @@ func c09Gen(o *vk.Out) mgrIn {
 	}
 	if in.Start == stateCandidate || r.Intn(8) == 0 {
 		in.OtherManager = r.Intn(2) == 0
+	}
+	if r.Intn(6) == 0 {
+		// acknowledged light maintenance with a failover request sitting in the tree (operator-forced during the maintenance,
+		// or automatic from just before it) and a replica whose replication is stopped: the request is suppressed, the
+		// repair goes on
+		in.Maint = &mgrMaint{Light: true, Paused: true}
+		in.MaintFile, in.Start, in.OtherManager = false, "", false
+		in.Switch = &mgrSwitch{From: "h1", Cause: []string{CauseManual, CauseAuto}[r.Intn(2)], Transition: "failover", InitiatedAgo: 1}
+		in.Nodes[1].Stopped = true
+		in.Events = nil
+		return in
 	}
 	if r.Intn(2) == 0 {
 		in.MgrHost = 1 + r.Intn(n)
